@@ -15,6 +15,7 @@ import ast
 import os
 
 from .. import translate
+from . import normalize
 
 REL = "fairlearn/metrics/_fairness_metrics.py"
 BASE = {"selection_rate": "selrate", "true_positive_rate": "tpr", "false_positive_rate": "fpr"}
@@ -126,7 +127,7 @@ def _eo_frame(fn):
 @translate.lifter
 def lift(repo):
     with open(os.path.join(repo, REL)) as f:
-        tree = ast.parse(f.read())
+        tree = normalize.parse(f.read())
     fns = {n.name: n for n in tree.body if isinstance(n, ast.FunctionDef)}
     need = ["demographic_parity_difference", "demographic_parity_ratio", "equal_opportunity_difference",
             "equal_opportunity_ratio", "equalized_odds_difference", "equalized_odds_ratio", "_get_eo_frame"]
